@@ -332,13 +332,17 @@ impl Brc20ProgDatabase {
     }
 
     pub fn get_block_tx_count(&self, block_number: u64) -> Result<u64, Box<dyn Error>> {
+        let Some(next_block_number) = block_number.checked_add(1) else {
+            // No such block can exist
+            return Ok(0);
+        };
         let transactions = self
             .db_number_and_index_to_tx_hash
             .as_ref()
             .expect(DB_MUTEX_ERROR)
             .get_range(
                 &Self::get_number_and_index_key(block_number, 0).into(),
-                &Self::get_number_and_index_key(block_number + 1, 0).into(),
+                &Self::get_number_and_index_key(next_block_number, 0).into(),
             )?;
 
         Ok(transactions.len() as u64)
